@@ -142,7 +142,7 @@ peg::parser! {
                 ScimFilter::Not(Box::new(e))
             }
             --
-            a:attrname()"[" e:parse_complex() "]" {
+            a:attrname()"[" e:parse_complex_depth(max_depth) "]" {
                 ScimFilter::Complex(
                     a,
                     Box::new(e)
